@@ -268,6 +268,9 @@ func runOne(ld *Loaded, fn *ssa.Function, opts RunOpts, pool *Pool) (res Harness
 		}
 		if len(conds) > 1 {
 			bo := Obligation{Kind: "batch", Cond: ex.ts.Or(conds...), Label: "any panic/unwind/bound"}
+			if opts.DumpDir != "" {
+				dumpQuery(ex, bo, fmt.Sprintf("%s/%s_batch.smt2", opts.DumpDir, fn.Name()))
+			}
 			br := dischargeObl(ex, bo, opts, pool)
 			if verbose {
 				fmt.Fprintf(os.Stderr, "[%s] batch of %d panic/unwind/bound obligations -> %s (%s %dms nodes=%d)\n", fn.Name(), len(conds), br.Status, br.Solver, br.Ms, br.Nodes)
@@ -392,45 +395,96 @@ func dischargeObl(ex *Exec, o Obligation, opts RunOpts, pool *Pool) OblResult {
 	or.Nodes = nodes
 	solvers := opts.Solvers
 	if len(solvers) == 0 {
-		solvers = []string{"z3", "cvc5", "z3-new"}
+		solvers = []string{"z3sat", "cvc5", "z3-new", "z3"}
 	}
-	var first *QueryResult
-	for _, sn := range solvers {
+	wantModel := vars
+	if o.Kind == "reach" {
+		wantModel = nil
+	}
+	finish := func(qr QueryResult) {
+		or.Status = qr.Status
+		or.Solver = qr.Solver
+		or.Ms += qr.Time.Milliseconds()
+		if qr.Status == "sat" && o.Kind != "reach" {
+			or.Model = buildModel(ex, qr.Model)
+		}
+	}
+	one := func(sn string, tmo time.Duration) QueryResult {
 		s, err := pool.Get(sn)
 		if err != nil {
-			continue
+			return QueryResult{Status: "error", Solver: sn, Raw: err.Error()}
 		}
-		wantModel := vars
-		if o.Kind == "reach" {
-			wantModel = nil
-		}
-		qr := s.Check(prefix, asserts, wantModel, solverTimeout)
+		qr := s.Check(prefix, asserts, wantModel, tmo)
 		pool.Put(s)
-		if qr.Status == "sat" || qr.Status == "unsat" {
-			if first == nil {
-				first = &qr
-				or.Status = qr.Status
-				or.Solver = qr.Solver
-				or.Ms = qr.Time.Milliseconds()
-				if qr.Status == "sat" && o.Kind != "reach" {
-					or.Model = buildModel(ex, qr.Model)
-				}
-				if !opts.CrossCheck {
-					return or
-				}
+		return qr
+	}
+	// stage 1: the fast path
+	quick := 3 * time.Second
+	if quick > solverTimeout {
+		quick = solverTimeout
+	}
+	qr := one(solvers[0], quick)
+	definite := func(q QueryResult) bool { return q.Status == "sat" || q.Status == "unsat" }
+	if !definite(qr) && len(solvers) > 1 {
+		or.Ms += qr.Time.Milliseconds()
+		// stage 2: race the remaining solvers (and the first again with the full budget)
+		type res struct {
+			qr QueryResult
+			s  *Solver
+		}
+		names := append(append([]string{}, solvers[1:]...), solvers[0])
+		ch := make(chan res, len(names))
+		var running []*Solver
+		for _, sn := range names {
+			s, err := pool.Get(sn)
+			if err != nil {
+				ch <- res{QueryResult{Status: "error", Solver: sn}, nil}
 				continue
 			}
-			or.Second = qr.Solver
-			or.Status2 = qr.Status
-			if qr.Status != first.Status {
-				or.Status = "error"
-			}
-			return or
+			running = append(running, s)
+			go func(s *Solver) {
+				ch <- res{s.Check(prefix, asserts, wantModel, solverTimeout), s}
+			}(s)
 		}
-		if first == nil {
-			or.Status = qr.Status
-			or.Solver = qr.Solver
-			or.Ms += qr.Time.Milliseconds()
+		got := 0
+		var last QueryResult
+		won := false
+		for got < len(names) {
+			r := <-ch
+			got++
+			if r.s != nil {
+				pool.Put(r.s)
+			}
+			if definite(r.qr) && !won {
+				won = true
+				last = r.qr
+				for _, s := range running {
+					if s != r.s {
+						s.Abort()
+					}
+				}
+			} else if !won {
+				last = r.qr
+			}
+		}
+		qr = last
+	}
+	finish(qr)
+	if definite(qr) && opts.CrossCheck {
+		// second opinion from a different solver
+		for _, sn := range solvers {
+			if sn == qr.Solver {
+				continue
+			}
+			q2 := one(sn, solverTimeout)
+			if definite(q2) {
+				or.Second = q2.Solver
+				or.Status2 = q2.Status
+				if q2.Status != qr.Status {
+					or.Status = "error"
+				}
+				break
+			}
 		}
 	}
 	return or
@@ -467,7 +521,7 @@ func cmdSymx(args []string) int {
 	dump := fs.String("dump", "", "dump SMT queries into this directory")
 	workers := fs.Int("j", 8, "parallel harnesses")
 	cross := fs.Bool("cross", false, "answer every query with two solvers")
-	solvers := fs.String("solvers", "z3,cvc5,z3-new", "solver order")
+	solvers := fs.String("solvers", "z3sat,cvc5,z3-new,z3", "solver order")
 	b := DefaultBounds
 	fs.IntVar(&b.SliceLen, "slice", b.SliceLen, "max slice len")
 	fs.IntVar(&b.SpareCap, "spare", b.SpareCap, "max spare cap")
